@@ -242,6 +242,7 @@ def run(ctx, report):
 
     # ---------------------------------------------------------------- D9 a memory operand rendered under a suffix-less AT&T mnemonic assembles back
     R9 = report.rule('C09.D9', 'memory forms whose AT&T mnemonic carries no size suffix: the size mnemo_from_att leaves on the operand passes the size check of the /digit row', floor=30)
+    att_shapes = att_memory_operand_shapes(ctx)
     ac = arch.method('x86_mn', 'asm_candidates')
     d_asm = X.digit_branch(ac)
     if d_asm is None:
@@ -294,65 +295,65 @@ def run(ctx, report):
         res = r[0][1]
         if not isinstance(res, str):
             continue            # D1 reports it
-        # what the AT&T operand parser hands over for `(%eax)`: an address without size
-        op = {afs.ad: True, afs.size: True, 0: 1}
-        lst = [op]
-        try:
-            r2 = I.run(from_att, [[], res, lst, 'att_syntax'])
-        except LiftUnknown as e:
-            raise AnalysisError('mnemo_from_att outside the modelled subset on %s: %s' % (res, e))
-        if isinstance(r2[0][1], LiftError):
-            continue            # D2 reports it
-        back = r2[0][1]
-        n2 = back[1] if isinstance(back, tuple) and len(back) == 2 else back
-        # normalize_args (evaluated) may give the operand a size (lea, prefetch, cmpxchg8b)
-        from .. import stringops as SO9
-        lst2, _ = SO9.normalized(X, n2, lst)
-        if len(lst2) != 1:
-            continue
-        a9 = dict(lst2[0])
-        # statements of asm_candidates that complete an operand before the operand-size detection (e.g. an unsized memory operand takes the
-        # size of the rows when they agree): evaluated with the rows of the mnemonic as candidates
-        if pre9:
-            cands = []
-            for c_ in rows_by_name.get(n2, []):
-                co = Obj('c')
-                mdc = dict((E[k_], None) for k_ in ('w8', 'se', 'sw', 'ww', 'sg', 'dr', 'cr', 'ft', 'w64', 'sd', 'wd', 'bkf', 'spf', 'dtf', 'mmx') if k_ in E)
-                mdc.update(c_.modifs)
-                co.name, co.modifs, co.afs, co.rm, co.opc = c_.row.name, mdc, c_.row.afs, list(c_.row.rm), list(c_.opc)
-                cands.append(co)
-            xdb = Obj('x86mndb')
-            xdb.__dict__['_methods'] = dict((m_.name, m_) for m_ in arch.classes['x86allmncs'].body if isinstance(m_, ast.FunctionDef))
-            scope0 = dict((k_, v_) for k_, v_ in E.items() if isinstance(v_, (str, int, bool, list, tuple, dict)) or v_ is None)
-            scope0.update({'args_eval': [a9], 'candidate': cands, 'x86mndb': xdb, 'x86_afs': afs, 'name': n2, 'log': lg9, 'prefix': []})
-            ev0 = Evaluator({})
-            ev0.env = scope0
+        # what the AT&T operand parser hands over for `(%eax)`: an address without size; for `%fs:(%eax)`: the override, and the placeholder size u32
+        for shape9, op in (('', dict(att_shapes['plain'])), ('-seg', dict(att_shapes['seg']))):
+            lst = [op]
             try:
-                ev0.exec_stmts(pre9, scope0)
+                r2 = I.run(from_att, [[], res, lst, 'att_syntax'])
+            except LiftUnknown as e:
+                raise AnalysisError('mnemo_from_att outside the modelled subset on %s: %s' % (res, e))
+            if isinstance(r2[0][1], LiftError):
+                continue            # D2 reports it
+            back = r2[0][1]
+            n2 = back[1] if isinstance(back, tuple) and len(back) == 2 else back
+            # normalize_args (evaluated) may give the operand a size (lea, prefetch, cmpxchg8b)
+            from .. import stringops as SO9
+            lst2, _ = SO9.normalized(X, n2, lst)
+            if len(lst2) != 1:
+                continue
+            a9 = dict(lst2[0])
+            # statements of asm_candidates that complete an operand before the operand-size detection (e.g. an unsized memory operand takes the
+            # size of the rows when they agree): evaluated with the rows of the mnemonic as candidates
+            if pre9:
+                cands = []
+                for c_ in rows_by_name.get(n2, []):
+                    co = Obj('c')
+                    mdc = dict((E[k_], None) for k_ in ('w8', 'se', 'sw', 'ww', 'sg', 'dr', 'cr', 'ft', 'w64', 'sd', 'wd', 'bkf', 'spf', 'dtf', 'mmx') if k_ in E)
+                    mdc.update(c_.modifs)
+                    co.name, co.modifs, co.afs, co.rm, co.opc = c_.row.name, mdc, c_.row.afs, list(c_.row.rm), list(c_.opc)
+                    cands.append(co)
+                xdb = Obj('x86mndb')
+                xdb.__dict__['_methods'] = dict((m_.name, m_) for m_ in arch.classes['x86allmncs'].body if isinstance(m_, ast.FunctionDef))
+                scope0 = dict((k_, v_) for k_, v_ in E.items() if isinstance(v_, (str, int, bool, list, tuple, dict)) or v_ is None)
+                scope0.update({'args_eval': [a9], 'candidate': cands, 'x86mndb': xdb, 'x86_afs': afs, 'name': n2, 'log': lg9, 'prefix': []})
+                ev0 = Evaluator({})
+                ev0.env = scope0
+                try:
+                    ev0.exec_stmts(pre9, scope0)
+                except NotConst as e:
+                    raise AnalysisError('asm_candidates: operand completion before the size detection is not evaluable for %s: %s' % (n2, e))
+            # asm_candidates normalises the 16-bit memory operand of the mnemo_mem16 instructions to u32
+            if a9.get(afs.ad) == afs.u16 and n2 in mem16:
+                a9[afs.ad] = a9[afs.size] = afs.u32
+            cobj = Obj('c')
+            md9 = dict((E[k_], None) for k_ in ('w8', 'se', 'sw', 'ww', 'sg', 'dr', 'cr', 'ft', 'w64', 'sd', 'wd', 'bkf', 'spf', 'dtf', 'mmx') if k_ in E)
+            md9.update(inst.modifs)
+            cobj.name, cobj.modifs = inst.row.name, md9
+            scope = dict((k_, v_) for k_, v_ in E.items() if isinstance(v_, (str, int, bool, list, tuple, dict)) or v_ is None)
+            scope.update({'a': a9, 'c': cobj, 'x86_afs': afs, 'log': lg9})
+            ev9 = Evaluator({})
+            ev9.env = scope
+            try:
+                ev9.exec_stmts(size_stmts, scope)
+                ok9 = ev9.call_user(csm, [Obj('x86mndb'), scope.get('size'), md9])
             except NotConst as e:
-                raise AnalysisError('asm_candidates: operand completion before the size detection is not evaluable for %s: %s' % (n2, e))
-        # asm_candidates normalises the 16-bit memory operand of the mnemo_mem16 instructions to u32
-        if a9.get(afs.ad) == afs.u16 and n2 in mem16:
-            a9[afs.ad] = a9[afs.size] = afs.u32
-        cobj = Obj('c')
-        md9 = dict((E[k_], None) for k_ in ('w8', 'se', 'sw', 'ww', 'sg', 'dr', 'cr', 'ft', 'w64', 'sd', 'wd', 'bkf', 'spf', 'dtf', 'mmx') if k_ in E)
-        md9.update(inst.modifs)
-        cobj.name, cobj.modifs = inst.row.name, md9
-        scope = dict((k_, v_) for k_, v_ in E.items() if isinstance(v_, (str, int, bool, list, tuple, dict)) or v_ is None)
-        scope.update({'a': a9, 'c': cobj, 'x86_afs': afs, 'log': lg9})
-        ev9 = Evaluator({})
-        ev9.env = scope
-        try:
-            ev9.exec_stmts(size_stmts, scope)
-            ok9 = ev9.call_user(csm, [Obj('x86mndb'), scope.get('size'), md9])
-        except NotConst as e:
-            raise AnalysisError('asm_candidates /digit size computation not evaluable for %s: %s' % (name, e))
-        iid = 'att-unsized:%s:%s:%s' % (name, inst.row.key(), inst.opmode)
-        if ok9:
-            R9.ok(iid, sample='%s (%%eax) -> %s with operand size %s: accepted by %s' % (res, n2, scope.get('size'), inst.row.key()), nontrivial=(len(R9.nontrivial) < 80))
-        else:
-            R9.violation(iid, 'att-unsized:%s' % name, 'the memory form of %s is rendered `%s (%%eax)` in AT&T syntax; read back, the operand has size %r, which the size check of row %s refuses: '
-                         'the rendering has no candidate' % (name, res, scope.get('size'), inst.row.key()), where(arch, from_att.node), witness="asm_att('sgdt (%eax)') == []")
+                raise AnalysisError('asm_candidates /digit size computation not evaluable for %s: %s' % (name, e))
+            iid = 'att-unsized%s:%s:%s:%s' % (shape9, name, inst.row.key(), inst.opmode)
+            if ok9:
+                R9.ok(iid, sample='%s %s(%%eax) -> %s with operand size %s: accepted by %s' % (res, '%fs:' if shape9 else '', n2, scope.get('size'), inst.row.key()), nontrivial=(len(R9.nontrivial) < 80))
+            else:
+                R9.violation(iid, 'att-unsized%s:%s' % (shape9, name), ('the memory form of %s is rendered `%s ' + ('%%fs:' if shape9 else '') + '(%%eax)` in AT&T syntax; read back, the operand has size %r, '
+                             'which the size check of row %s refuses: the rendering has no candidate') % (name, res, scope.get('size'), inst.row.key()), where(arch, from_att.node), witness="asm_att('sgdt (%eax)') == []")
 
 
     # ---------------------------------------------------------------- D10 the size mark of an immediate survives arg_set_numpy_imm
@@ -381,6 +382,47 @@ def run(ctx, report):
     R11 = report.rule('C09.D11', 'rendering does not change the instruction: the Intel and the AT&T rendering of one decoded object describe the same instruction (shared with C12.D11)', floor=4)
     from .c12 import readonly_methods_rule
     readonly_methods_rule(ctx, R11)
+
+
+def att_memory_operand_shapes(ctx):
+    """The operand dictionaries the AT&T parser delivers for `(%eax)` and for `%fs:(%eax)`: the grammar actions `argument : address` and
+    `argument : PERCENT SEGMENT COLON address` and the post-processing loop of parse_args, evaluated from ia32_att.py."""
+    from ..x86table import model as x86model
+    from ..consteval import Evaluator, NotConst
+    X = x86model(ctx)
+    afs = X.afs
+    att = ctx.mod('ia32_att')
+    acts = {}
+    for f in att.funcs.values():
+        doc = ast.get_docstring(f) or ''
+        prods = [' '.join(x.split()) for x in doc.replace('|', '\n argument :').split('\n')]
+        if f.name.startswith('p_') and any(p_ == 'argument : address' for p_ in prods):
+            acts['plain'] = f
+        if f.name.startswith('p_') and any(p_ == 'argument : PERCENT SEGMENT COLON address' for p_ in prods):
+            acts['seg'] = f
+    if set(acts) != {'plain', 'seg'}:
+        raise AnalysisError('ia32_att: the productions `argument : address` / `argument : PERCENT SEGMENT COLON address` were not found')
+    pa = att.funcs.get('parse_args')
+    loops = [n for n in ast.walk(pa) if isinstance(n, ast.For)] if pa is not None else []
+    if not loops:
+        raise AnalysisError('ia32_att.parse_args: the post-processing loop over the parsed operands was not found')
+    scope = {'x86_afs': afs}
+    for fname_, fnode_ in att.funcs.items():
+        scope.setdefault(fname_, fnode_)
+    out = {}
+    for kind, f in acts.items():
+        t = [None, {0: 1}] if kind == 'plain' else [None, '%', 'fs', ':', {0: 1}]
+        try:
+            Evaluator(scope).call_user(f, [t])
+            args = [t[0]]
+            sc = dict(scope)
+            sc['args'] = args
+            ev = Evaluator(scope)
+            ev.exec_stmts([loops[0]], sc)
+        except NotConst as e:
+            raise AnalysisError('ia32_att: the action of %s / parse_args is outside the evaluable subset: %s' % (f.name, e))
+        out[kind] = args[0]
+    return out
 
 
 def numpy_imm_eval(ctx, args10):
